@@ -174,6 +174,36 @@ def _task(args):
     return stats, vios, sample
 
 
+def _task_huge(args):
+    """text clients: a line longer than the stream reader's limit (64 KiB) is undecodable input like any
+    other; the messages around it must still arrive.  Only a few segmentations (the stream is 70 KB)."""
+    kind, = args
+    items = alphabet(kind)
+    huge = b"x" * 70000 + b"\r\n"
+    huge_nolf_then = b"\xfe" * 66000            # exceeds the limit before any line end is seen
+    vios = []
+    stats = {"runs": 0, "streams": 0, "nontrivial": 0, "outcomes": set()}
+    for seq in ([huge, items["A"]], [items["A"], huge, items["A2"]], [items["B1"], huge, items.get("B2", items["A2"])],
+                [huge_nolf_then + b"\r\n", items["A"]], [huge, huge, items["A"]]):
+        stream = b"".join(seq)
+        exp = expected(kind, stream)
+        stats["streams"] += 1
+        L = len(stream)
+        for cuts in ((), (30000,), tuple(range(4096, L, 4096)), tuple(range(65536, L, 65536)), (L - 3,), (69999, 70001)):
+            s, o = run_one(kind, split(stream, [c for c in cuts if 0 < c < L]), "ok")
+            stats["runs"] += 1
+            stats["nontrivial"] += 1
+            stats["outcomes"].add(len(o.received))
+            for kk, f, d in judge(kind, stream, exp, s, o):
+                vios.append(mk(kind, ("<over-long line streams>",), cuts, "ok", (), kk, dict(f, mechanism="over_long_line"), d))
+    stats["outcomes"] = len(stats["outcomes"])
+    return stats, vios, None
+
+
+def _dispatch(t):
+    return _task_huge(t[1:]) if t[0] == "huge" else _task(t)
+
+
 def mk(kind, seq, cuts, cb, devs, kk, f, d):
     return {"kind": kk, "facts": dict(f, client=kind), "signature": f"{kk}:{kind}:{seq}",
             "detail": f"[{kind} stream={list(seq)} cuts={list(cuts)[:6]}{'...' if len(cuts) > 6 else ''} callbacks={cb} devs={list(devs)}] {d}",
@@ -213,8 +243,8 @@ def plan(ctx):
 
 
 def run(ctx):
-    tasks = plan(ctx)
-    results = common.pmap(_task, tasks)
+    tasks = plan(ctx) + [("huge", "yd"), ("huge", "actisense")]
+    results = common.pmap(_dispatch, tasks)
     vios, samples = [], []
     runs = streams = nontriv = outcomes = 0
     for st, v, s in results:
